@@ -304,6 +304,10 @@ class CouplingGraph(Collection[tuple[int, int]]):
         return list(self._adj[qudit])
 
     def __contains__(self, __o: object) -> bool:
+        if isinstance(__o, tuple) and len(__o) == 2:
+            # Edges are undirected and stored as (low, high)
+            if (__o[1], __o[0]) in self._edges:
+                return True
         return self._edges.__contains__(__o)
 
     def __eq__(self, __o: object) -> bool:
